@@ -18,7 +18,7 @@ MonCfg == [k \in {"initMin", "initMax", "reps", "base", "cyclic", "annTTL", "col
               inst |-> [i \in DOMAIN Cfg.inst |-> [svc |-> Cfg.inst[i].svc, egs |-> SetToSeq(Cfg.inst[i].egs),
                                                      subs |-> SetToSeq(Cfg.inst[i].subs)]],
               findMatch |-> [f \in DOMAIN Cfg.findMatch |-> SetToSeq(Cfg.findMatch[f])],
-              rejectCtr |-> SetToSeq(Cfg.rejectCtr), ann0 |-> Cfg.ann0, peers |-> Cfg.peers,
+              ann0 |-> Cfg.ann0, peers |-> Cfg.peers,
               dsts |-> <<"mc">> \o Cfg.peers,
               egs |-> Cfg.egs, subTTL |-> Cfg.subTTL, refresh |-> Cfg.refresh, findTTL |-> Cfg.findTTL,
               watch0 |-> SetToSeq(UNION Range(Cfg.watch0) \ {"ALL"}),
@@ -53,10 +53,10 @@ Find(src, mc, flt) == [op |-> "rx", src |-> src, mc |-> mc, reboot |-> FALSE, uc
                        es |-> <<[ty |-> "find", svc |-> flt, ttl |-> 3]>>]
 I1only == [I1 |-> [svc |-> "s1", egs |-> {1}, subs |-> {"s1"}]]
 I12    == [I1 |-> [svc |-> "s1", egs |-> {1}, subs |-> {"s1"}], I2 |-> [svc |-> "s3", egs |-> {1}, subs |-> {"s3"}]]
-FM     == [f1 |-> {"s1"}, f3 |-> {"s3"}, fz |-> {}]
+FM     == [f1 |-> {"s1"}, f3 |-> {"s3"}, fz |-> {}, fa |-> {"s1", "s3"}]
 LifeOps == {[op |-> "ann_start"], [op |-> "ann_stop"]}
 C10_Inputs == LifeOps \cup {Find("a1", m, "f1") : m \in BOOLEAN}
-C12_Inputs == LifeOps \cup {Find("a1", m, f) : m \in BOOLEAN, f \in {"f1", "f3", "fz"}}
+C12_Inputs == LifeOps \cup {Find("a1", m, f) : m \in BOOLEAN, f \in {"f1", "fa", "fz"}}
 \* timing variants: (collect, initMin, initMax, reps, cyclic, rrMin, rrMax)
 TV(c, i0, i1, r, cy, r0, r1) ==
   [collect |-> c, initMin |-> i0, initMax |-> i1, reps |-> r, base |-> 1, cyclic |-> cy, rrMin |-> r0, rrMax |-> r1,
@@ -68,16 +68,16 @@ C10_D == TV(1, 1, 2, 0, 0, 1, 1) @@ [inst |-> I1only, ann0 |-> <<"I1">>] @@ CfgD
 C12_A == TV(0, 0, 0, 0, 4, 0, 0) @@ [inst |-> I12, ann0 |-> <<"I1", "I2">>] @@ CfgDefault
 C12_B == TV(1, 0, 1, 0, 4, 1, 2) @@ [inst |-> I12, ann0 |-> <<"I1", "I2">>] @@ CfgDefault
 \* ---- C06 / C11: subscriptions
-Sub(src, mc, reb, svc, eg, ctr, ttl) ==
+Sub(src, mc, reb, svc, eg, acc, ttl) ==
   [op |-> "rx", src |-> src, mc |-> mc, reboot |-> reb, uc |-> TRUE,
-   es |-> <<[ty |-> "sub", svc |-> svc, eg |-> eg, ctr |-> ctr, eps |-> <<"e1">>, ttl |-> ttl]>>]
+   es |-> <<[ty |-> "sub", svc |-> svc, eg |-> eg, ctr |-> 0, eps |-> <<"e1">>, ttl |-> ttl, acc |-> acc]>>]
 SubInputs(srcs, egs, ctrs, ttls) ==
   {Sub(a, FALSE, r, "s1", g, c, t) : a \in srcs, r \in BOOLEAN, g \in egs, c \in ctrs, t \in ttls}
-  \cup {Sub(a, TRUE, FALSE, "s1", 1, 0, 2) : a \in srcs}
-C06_Inputs == LifeOps \cup SubInputs({"a1"}, {1}, {0, 7}, {0, 2, FOREVER}) \cup {[op |-> "connlost"]}
-C11_Inputs == LifeOps \cup SubInputs({"a1"}, {1, 3}, {0, 7}, {0, 2}) \cup {Sub("a1", FALSE, FALSE, "s3", 1, 0, 2)}
-C06_A == TV(0, 0, 0, 0, 4, 0, 0) @@ [inst |-> I1only, ann0 |-> <<"I1">>, rejectCtr |-> {7}] @@ CfgDefault
-C06_B == TV(1, 0, 0, 0, 4, 0, 0) @@ [inst |-> I1only, ann0 |-> <<"I1">>, rejectCtr |-> {7}] @@ CfgDefault
+  \cup {Sub(a, TRUE, FALSE, "s1", 1, TRUE, 2) : a \in srcs}
+C06_Inputs == LifeOps \cup SubInputs({"a1"}, {1}, BOOLEAN, {0, 1, 2, FOREVER}) \cup {[op |-> "connlost"]}
+C11_Inputs == LifeOps \cup SubInputs({"a1"}, {1, 3}, BOOLEAN, {0, 2}) \cup {Sub("a1", FALSE, FALSE, "s3", 1, TRUE, 2)}
+C06_A == TV(0, 0, 0, 0, 4, 0, 0) @@ [inst |-> I1only, ann0 |-> <<"I1">>] @@ CfgDefault
+C06_B == TV(1, 0, 0, 0, 4, 0, 0) @@ [inst |-> I1only, ann0 |-> <<"I1">>] @@ CfgDefault
 \* ---- C14: subscriber
 SubOps(gs, srvs) == {[op |-> o, g |-> g, srv |-> a] : o \in {"subscribe", "unsubscribe"}, g \in gs, a \in srvs}
                     \cup {[op |-> "sub_start"], [op |-> "sub_stop"]}
